@@ -34,6 +34,18 @@ type Prog struct {
 	cg        *callgraph.Graph
 	astFn     map[*ssa.Function]ast.Node
 	writeMemo map[string]int
+
+	constGlobals   map[*ssa.Global]bool
+	writtenGlobals map[*ssa.Global]bool
+}
+
+// AllFuncs returns every function of the whole program (dependencies included).
+func (p *Prog) AllFuncs() []*ssa.Function {
+	var out []*ssa.Function
+	for fn := range ssautil.AllFunctions(p.SSA) {
+		out = append(out, fn)
+	}
+	return out
 }
 
 // LoadOpts selects a build configuration.
